@@ -12,46 +12,46 @@ open Vm VmSteps Sem Gen
 
 variable {V : String → Prop}
 
-def RangeOK (r : Range) : Prop :=
-  RvOK r.first ∧ match r.last with
-    | some l => RvOK l
+def RangeOK (V : String → Prop) (r : Range) : Prop :=
+  RvC V r.first ∧ match r.last with
+    | some l => RvC V l
     | none => True
 
-def ORangeOK : Option Range → Prop
+def ORangeOK (V : String → Prop) : Option Range → Prop
   | none => True
-  | some r => RangeOK r
+  | some r => RangeOK V r
 
 def ArgsOK : Args → Prop
   | .nil => True
   | .cons a rest => RvOK a ∧ ArgsOK rest
 
 /-- the `with` clause of a loop: pure operands -/
-def WithOK : WithClause → Prop
-  | .fromTo _ a b => RvOK a ∧ RvOK b
-  | .cycle _ start => match start with | some r => RvOK r | none => True
+def WithOK (V : String → Prop) : WithClause → Prop
+  | .fromTo _ a b => RvC V a ∧ RvC V b
+  | .cycle _ start => match start with | some r => RvC V r | none => True
 
-def OWithOK : Option WithClause → Prop
+def OWithOK (V : String → Prop) : Option WithClause → Prop
   | none => True
-  | some wc => WithOK wc
+  | some wc => WithOK V wc
 
 /-- the sources of `repeat in …`: pure names -/
-def ItemOK : IterItem → Prop
+def ItemOK (V : String → Prop) : IterItem → Prop
   | .all => True
-  | .light n => RvOK n
-  | .group n => RvOK n
-  | .location n => RvOK n
+  | .light n => RvC V n
+  | .group n => RvC V n
+  | .location n => RvC V n
 
 def LoopHdrOK (V : String → Prop) : LoopHdr → Prop
   | .forever => True
   | .count n => RvC V n
   | .while_ c => RvC V c
-  | .range _ a b => RvOK a ∧ RvOK b
-  | .interp n v a b => RvOK n ∧ WithOK (.fromTo v a b)
-  | .cycle n v start => RvOK n ∧ WithOK (.cycle v start)
-  | .all _ w => OWithOK w
-  | .groups _ w => OWithOK w
-  | .locations _ w => OWithOK w
-  | .iter items _ w => (∀ i ∈ items, ItemOK i) ∧ OWithOK w
+  | .range _ a b => RvC V a ∧ RvC V b
+  | .interp n v a b => RvC V n ∧ WithOK V (.fromTo v a b)
+  | .cycle n v start => RvC V n ∧ WithOK V (.cycle v start)
+  | .all _ w => OWithOK V w
+  | .groups _ w => OWithOK V w
+  | .locations _ w => OWithOK V w
+  | .iter items _ w => (∀ i ∈ items, ItemOK V i) ∧ OWithOK V w
 
 mutual
   /-- statements of the fragment -/
@@ -77,7 +77,7 @@ mutual
     | .printf fmt as =>
       ArgsOK as ∧ as.toList.length ≤ positionalCount (fmt.replace "\\n" "\n").toList ∧
         "result" ∉ fieldNames (fmt.replace "\\n" "\n").toList
-    | .stage rows cols _ => ORangeOK rows ∧ ORangeOK cols
+    | .stage rows cols _ => ORangeOK V rows ∧ ORangeOK V cols
   def FragBlock (V : String → Prop) : Block → Prop
     | .nil => True
     | .cons s rest => FragStmt V s ∧ FragBlock V rest
@@ -85,8 +85,8 @@ mutual
     | .light _ => True
     | .group _ => True
     | .location _ => True
-    | .zone _ r => RangeOK r
-    | .matrixInline _ rows cols _ => ORangeOK rows ∧ ORangeOK cols
+    | .zone _ r => RangeOK V r
+    | .matrixInline _ rows cols _ => ORangeOK V rows ∧ ORangeOK V cols
     | .matrixBlock _ body => FragBlock V body
   def FragOperands (V : String → Prop) : Operands → Prop
     | .nil => True
@@ -106,6 +106,9 @@ def StmtGoal (img : Image) (K : Ctx) (st : Stmt) (f : Nat) : Prop :=
     Exec img s (At K (Target pc (genStmt st).length exit o) stk [] σ')
 
 variable {img : Image} {K : Ctx}
+
+/-- the value positions at every fuel up to `f` -/
+def RvToGoals (V : String → Prop) (img : Image) (K : Ctx) (f : Nat) : Prop := ∀ g, g ≤ f → RvToGoal V img K g
 
 /-! ### value positions (with calls) at statement level -/
 
@@ -304,31 +307,30 @@ variable {img : Image} {K : Ctx} {stk : Stk} {un : List Val} {σ : S} {s : State
 
 /-! ### ranges -/
 
-theorem evalRange_error {r : Range} (hr : RangeOK r) (f : Nat) (a b : Reg) (σ : S) (o : Outcome)
+theorem evalRange_error {r : Range} (f : Nat) (a b : Reg) (σ : S) (o : Outcome)
     (h : evalRange f r a b σ = .error o) : o ≠ .normal ∧ o ≠ .brk ∧ o ≠ .ret := by
   cases f with
   | zero => simp [evalRange] at h; subst h; simp
   | succ f =>
-    obtain ⟨h1, h2⟩ := hr
     simp only [evalRange] at h
     split at h
     · rename_i o' he
       simp at h; subst h
-      exact evalRv_error h1 f _ _ he
+      exact evalRvC_error he
     · split at h
       · simp at h
       · rename_i l hl
-        rw [hl] at h2
         split at h
         · rename_i o' he
           simp at h; subst h
-          exact evalRv_error h2 f _ _ he
+          exact evalRvC_error he
         · simp at h
 
-theorem exec_range (r : Range) (hr : RangeOK r) (a b : Reg) (ha : SettableReg a) (hb : SettableReg b)
-    (h : SimU K stk un σ s) (hpc : s.pc = (pc : Int)) (hc : CodeAt img pc (genRange a b r))
-    {f : Nat} {σ' : S} (hev : evalRange f r a b σ = .ok σ') :
-    Exec img s (At K (pc + (genRange a b r).length) stk un σ') := by
+theorem exec_range {f : Nat} (ihRvs : RvToGoals V img K f) (r : Range) (hr : RangeOK V r) (a b : Reg)
+    (ha : SettableReg a) (hb : SettableReg b)
+    (h : Sim K stk σ s) (hpc : s.pc = (pc : Int)) (hc : CodeAt img pc (genRange a b r))
+    {σ' : S} (hev : evalRange f r a b σ = .ok σ') :
+    Exec img s (At K (pc + (genRange a b r).length) stk [] σ') := by
   cases f with
   | zero => simp [evalRange] at hev
   | succ f =>
@@ -338,8 +340,7 @@ theorem exec_range (r : Range) (hr : RangeOK r) (a b : Reg) (ha : SettableReg a)
     split at hev
     · simp at hev
     · rename_i x σ1 he1
-      obtain ⟨rfl, hex⟩ := exec_setReg r.first h1 a ha h hpc hc.left he1
-      refine hex.trans fun t ht => ?_
+      refine (rv_setReg (ihRvs f (Nat.le_succ f)) r.first h1 a ha h hpc hc.left he1).trans fun t ht => ?_
       split at hev
       · rename_i hl
         simp only [Except.ok.injEq] at hev
@@ -354,8 +355,7 @@ theorem exec_range (r : Range) (hr : RangeOK r) (a b : Reg) (ha : SettableReg a)
         · rename_i y σ2 he2
           simp only [Except.ok.injEq] at hev
           subst hev
-          obtain ⟨rfl, hex2⟩ := exec_setReg l h2 b hb ht.2 ht.1 hc.right he2
-          refine hex2.mono fun t2 ht2 => ?_
+          refine (rv_setReg (ihRvs f (Nat.le_succ f)) l h2 b hb ht.2 ht.1 hc.right he2).mono fun t2 ht2 => ?_
           simpa [List.length_append, Nat.add_assoc] using ht2
 
 def oCode (a b : Reg) : Option Range → List Instr
@@ -368,16 +368,17 @@ def oEval (f : Nat) (a b : Reg) (o : Option Range) (st : S) : Except Outcome S :
   | none => .ok st
 
 /-- an optional range (`rows`/`cols` of a matrix operand) -/
-theorem exec_orange (o : Option Range) (ho : ORangeOK o) (a b : Reg) (ha : SettableReg a)
-    (hb : SettableReg b) (h : SimU K stk un σ s) (hpc : s.pc = (pc : Int))
-    (hc : CodeAt img pc (oCode a b o)) {f : Nat} {σ' : S} (hev : oEval f a b o σ = .ok σ') :
-    Exec img s (At K (pc + (oCode a b o).length) stk un σ') := by
+theorem exec_orange {f : Nat} (ihRvs : RvToGoals V img K f) (o : Option Range) (ho : ORangeOK V o) (a b : Reg)
+    (ha : SettableReg a)
+    (hb : SettableReg b) (h : Sim K stk σ s) (hpc : s.pc = (pc : Int))
+    (hc : CodeAt img pc (oCode a b o)) {σ' : S} (hev : oEval f a b o σ = .ok σ') :
+    Exec img s (At K (pc + (oCode a b o).length) stk [] σ') := by
   cases o with
   | none =>
     simp only [oEval, Except.ok.injEq] at hev
     subst hev
     exact Exec.done ⟨by simpa [oCode] using hpc, h⟩
-  | some r => exact exec_range r ho a b ha hb h hpc hc hev
+  | some r => exact exec_range ihRvs r ho a b ha hb h hpc hc hev
 
 theorem exec_clear (o : Option Range) (a b : Reg) (ha : SettableReg a) (hb : SettableReg b)
     (h : SimU K stk un σ s) (hpc : s.pc = (pc : Int))
@@ -392,7 +393,7 @@ theorem exec_clear (o : Option Range) (a b : Reg) (ha : SettableReg a) (hb : Set
     exact exec_moveqReg .none b hb ht.2 ht.1 hc.tail.head
 
 
-theorem evalMatrixRanges_error {rows cols : Option Range} (hr : ORangeOK rows) (hcl : ORangeOK cols)
+theorem evalMatrixRanges_error {rows cols : Option Range}
     (f : Nat) (cf : Bool) (σ : S) (o : Outcome)
     (h : evalMatrixRanges f rows cols cf σ = .error o) : o ≠ .normal ∧ o ≠ .brk ∧ o ≠ .ret := by
   cases f with
@@ -403,13 +404,13 @@ theorem evalMatrixRanges_error {rows cols : Option Range} (hr : ORangeOK rows) (
       intro st o h
       cases rows with
       | none => simp at h
-      | some r => exact evalRange_error hr f _ _ st o h
+      | some r => exact evalRange_error f _ _ st o h
     have hC : ∀ st o, (match cols with | some r => evalRange f r .firstColumn .lastColumn st | none => .ok st)
         = .error o → o ≠ .normal ∧ o ≠ .brk ∧ o ≠ .ret := by
       intro st o h
       cases cols with
       | none => simp at h
-      | some r => exact evalRange_error hcl f _ _ st o h
+      | some r => exact evalRange_error f _ _ st o h
     simp only [evalMatrixRanges] at h
     split at h
     · rename_i o' hb
@@ -433,12 +434,13 @@ theorem evalMatrixRanges_error {rows cols : Option Range} (hr : ORangeOK rows) (
 
 /-- the ranges of a matrix stage: `MOVEQ matrix operand`, rows and columns in source order,
 absent ranges cleared -/
-theorem exec_matrixRanges (rows cols : Option Range) (cf : Bool) (hr : ORangeOK rows)
-    (hcl : ORangeOK cols) (h : SimU K stk un σ s) (hpc : s.pc = (pc : Int))
+theorem exec_matrixRanges {f : Nat} (ihRvs : RvToGoals V img K f) (rows cols : Option Range) (cf : Bool)
+    (hr : ORangeOK V rows)
+    (hcl : ORangeOK V cols) (h : Sim K stk σ s) (hpc : s.pc = (pc : Int))
     (hc : CodeAt img pc (genMatrixRanges rows cols cf))
-    {f : Nat} {σ' : S}
+    {σ' : S}
     (hev : evalMatrixRanges f rows cols cf (σ.setReg .operand (.operand .matrix)) = .ok σ') :
-    Exec img s (At K (pc + (genMatrixRanges rows cols cf).length) stk un σ') := by
+    Exec img s (At K (pc + (genMatrixRanges rows cols cf).length) stk [] σ') := by
   cases f with
   | zero => simp [evalMatrixRanges] at hev
   | succ f =>
@@ -460,10 +462,10 @@ theorem exec_matrixRanges (rows cols : Option Range) (cf : Bool) (hr : ORangeOK 
         simp only [if_true, List.length_append] at hboth hc1 hc2 hc3 ⊢
         split at hboth
         · rename_i σa ha
-          refine (exec_orange cols hcl .firstColumn .lastColumn (by decide) (by decide) ht0.2 ht0.1
+          refine (exec_orange (fun g hg => ihRvs g (Nat.le_succ_of_le hg)) cols hcl .firstColumn .lastColumn (by decide) (by decide) ht0.2 ht0.1
             (show CodeAt img (pc + 1) (oCode .firstColumn .lastColumn cols) from hc1.left)
             (show oEval f .firstColumn .lastColumn cols _ = _ from ha)).trans fun t1 ht1 => ?_
-          refine (exec_orange rows hr .firstRow .lastRow (by decide) (by decide) ht1.2 ht1.1
+          refine (exec_orange (fun g hg => ihRvs g (Nat.le_succ_of_le hg)) rows hr .firstRow .lastRow (by decide) (by decide) ht1.2 ht1.1
             (show CodeAt img _ (oCode .firstRow .lastRow rows) from hc1.right)
             (show oEval f .firstRow .lastRow rows _ = _ from hboth)).trans fun t2 ht2 => ?_
           have e2 : pc + 1 + (oCode .firstColumn .lastColumn cols).length +
@@ -483,10 +485,10 @@ theorem exec_matrixRanges (rows cols : Option Range) (cf : Bool) (hr : ORangeOK 
         simp only [Bool.false_eq_true, if_false, List.length_append] at hboth hc1 hc2 hc3 ⊢
         split at hboth
         · rename_i σa ha
-          refine (exec_orange rows hr .firstRow .lastRow (by decide) (by decide) ht0.2 ht0.1
+          refine (exec_orange (fun g hg => ihRvs g (Nat.le_succ_of_le hg)) rows hr .firstRow .lastRow (by decide) (by decide) ht0.2 ht0.1
             (show CodeAt img (pc + 1) (oCode .firstRow .lastRow rows) from hc1.left)
             (show oEval f .firstRow .lastRow rows _ = _ from ha)).trans fun t1 ht1 => ?_
-          refine (exec_orange cols hcl .firstColumn .lastColumn (by decide) (by decide) ht1.2 ht1.1
+          refine (exec_orange (fun g hg => ihRvs g (Nat.le_succ_of_le hg)) cols hcl .firstColumn .lastColumn (by decide) (by decide) ht1.2 ht1.1
             (show CodeAt img _ (oCode .firstColumn .lastColumn cols) from hc1.right)
             (show oEval f .firstColumn .lastColumn cols _ = _ from hboth)).trans fun t2 ht2 => ?_
           have e2 : pc + 1 + (oCode .firstRow .lastRow rows).length +
@@ -522,8 +524,9 @@ theorem exec_fire (k : ActKind) (h : SimU K stk un σ s) (hpc : s.pc = (pc : Int
   | on => exact exec_power h hpc hi hdev
   | off => exact exec_power h hpc hi hdev
 
-theorem stmt_stage (f : Nat) (rows cols : Option Range) (cf : Bool) (hr : ORangeOK rows)
-    (hcl : ORangeOK cols) : StmtGoal img K (.stage rows cols cf) (f + 1) := by
+theorem stmt_stage (f : Nat) (ihRvs : RvToGoals V img K f) (rows cols : Option Range) (cf : Bool)
+    (hr : ORangeOK V rows)
+    (hcl : ORangeOK V cols) : StmtGoal img K (.stage rows cols cf) (f + 1) := by
   intro σ σ' o s pc exit stk sim hpc hc h ho
   simp only [genStmt, resolve_ins, ins_length] at hc ⊢
   simp only [execStmt] at h
@@ -531,12 +534,12 @@ theorem stmt_stage (f : Nat) (rows cols : Option Range) (cf : Bool) (hr : ORange
   · rename_i o' he
     simp only [Prod.mk.injEq] at h
     obtain ⟨rfl, rfl⟩ := h
-    have := evalMatrixRanges_error hr hcl f cf _ _ he
+    have := evalMatrixRanges_error f cf _ _ he
     rcases ho with rfl | rfl <;> simp at this
   · rename_i σ1 he
     have hn := device_outcome h ho
     subst hn
-    refine (exec_matrixRanges rows cols cf hr hcl sim hpc hc.left he).trans fun t ht => ?_
+    refine (exec_matrixRanges ihRvs rows cols cf hr hcl sim hpc hc.left he).trans fun t ht => ?_
     refine (exec_color ht.2 ht.1 hc.right.head h).mono fun t2 ht2 => ?_
     simpa [Target, List.length_append, Nat.add_assoc] using ht2
 
@@ -858,7 +861,8 @@ theorem operand_plain (k : ActKind) (n : NameSpec) (w : Operand)
   refine (exec_moveqReg _ .operand (by decide) ht.2 ht.1 hc.tail.head).trans fun t2 ht2 => ?_
   exact exec_fire k ht2.2 ht2.1 hc.tail.tail.head h
 
-theorem operand_zone (f : Nat) (k : ActKind) (n : NameSpec) (r : Range) (hr : RangeOK r)
+theorem operand_zone (f : Nat) (ihRvs : RvToGoals V img K f) (k : ActKind) (n : NameSpec) (r : Range)
+    (hr : RangeOK V r)
     (σ σ' : S) (o : Outcome) (s : State) (pc exit : Nat) (stk : Stk)
     (sim : Sim K stk σ s) (hpc : s.pc = (pc : Int))
     (hc : CodeAt img pc (resolve (genOperand (.zone n r) ++ ins [opcodeOf k]) pc exit))
@@ -870,13 +874,13 @@ theorem operand_zone (f : Nat) (k : ActKind) (n : NameSpec) (r : Range) (hr : Ra
   · rename_i o' he
     simp only [Prod.mk.injEq] at h
     obtain ⟨rfl, rfl⟩ := h
-    have := evalRange_error hr f _ _ _ _ he
+    have := evalRange_error f _ _ _ _ he
     rcases ho with rfl | rfl <;> simp at this
   · rename_i σ1 he
     have hn := device_outcome h ho
     subst hn
     refine (exec_nameSet n sim hpc hc.left.left.left.head).trans fun t ht => ?_
-    refine (exec_range r hr .firstZone .lastZone (by decide) (by decide) ht.2 ht.1
+    refine (exec_range ihRvs r hr .firstZone .lastZone (by decide) (by decide) ht.2 ht.1
       hc.left.left.right (show evalRange f r .firstZone .lastZone (nameSet n σ) = .ok σ1 by
         cases n <;> exact he)).trans fun t2 ht2 => ?_
     have hc3 := hc.left.right.head
@@ -939,8 +943,9 @@ theorem execOperand_matrixBlock (f : Nat) (k : ActKind) (n : NameSpec) (body : B
         | r => r := by
   cases n <;> simp only [execOperand, nameSet] <;> rfl
 
-theorem operand_matrixInline (f : Nat) (k : ActKind) (n : NameSpec) (rows cols : Option Range)
-    (cf : Bool) (hr : ORangeOK rows) (hcl : ORangeOK cols)
+theorem operand_matrixInline (f : Nat) (ihRvs : RvToGoals V img K f) (k : ActKind) (n : NameSpec)
+    (rows cols : Option Range)
+    (cf : Bool) (hr : ORangeOK V rows) (hcl : ORangeOK V cols)
     (σ σ' : S) (o : Outcome) (s : State) (pc exit : Nat) (stk : Stk)
     (sim : Sim K stk σ s) (hpc : s.pc = (pc : Int))
     (hc : CodeAt img pc (resolve (genOperand (.matrixInline n rows cols cf) ++ ins [opcodeOf k]) pc exit))
@@ -953,7 +958,7 @@ theorem operand_matrixInline (f : Nat) (k : ActKind) (n : NameSpec) (rows cols :
   · rename_i o' he
     simp only [Prod.mk.injEq] at h
     obtain ⟨rfl, rfl⟩ := h
-    have := evalMatrixRanges_error hr hcl f cf _ _ he
+    have := evalMatrixRanges_error f cf _ _ he
     rcases ho with rfl | rfl <;> simp at this
   · rename_i s2 he
     rw [andThen_eq] at h
@@ -967,7 +972,7 @@ theorem operand_matrixInline (f : Nat) (k : ActKind) (n : NameSpec) (rows cols :
     simp only [List.length_append, List.length_cons, List.length_nil] at hcm hcr hcf
     refine (exec_nameSet n sim hpc hcl1.head).trans fun t ht => ?_
     refine (exec_matrix ht.2 ht.1 hcl1.tail.head hm).trans fun t1 ht1 => ?_
-    refine (exec_matrixRanges rows cols cf hr hcl ht1.2 ht1.1 (by
+    refine (exec_matrixRanges ihRvs rows cols cf hr hcl ht1.2 ht1.1 (by
       have : pc + 1 + 1 = pc + (0 + 1 + 1) := by omega
       rw [this]; exact hcm) he).trans fun t2 ht2 => ?_
     refine (exec_color ht2.2 ht2.1 (idx hcr.head) hcol).trans fun t3 ht3 => ?_
@@ -1033,7 +1038,8 @@ theorem operand_zero : OperandGoal V img K 0 := by
   simp only [execOperand, Prod.mk.injEq] at h
   rcases ho with rfl | rfl <;> simp at h
 
-theorem operand_step (f : Nat) (ihB : BlockGoal V img K f) : OperandGoal V img K (f + 1) := by
+theorem operand_step (f : Nat) (ihRvs : RvToGoals V img K f) (ihB : BlockGoal V img K f) :
+    OperandGoal V img K (f + 1) := by
   intro k op hop σ σ' o s pc exit stk sim hpc hc h ho
   cases op with
   | light n =>
@@ -1057,9 +1063,9 @@ theorem operand_step (f : Nat) (ihB : BlockGoal V img K f) : OperandGoal V img K
       cases n <;> (simp only [execOperand] at h; exact h)
     obtain ⟨hex, rfl⟩ := operand_plain k n .location σ σ' o s pc stk sim hpc hc h' ho
     exact hex
-  | zone n r => exact operand_zone f k n r hop σ σ' o s pc exit stk sim hpc hc h ho
+  | zone n r => exact operand_zone f ihRvs k n r hop σ σ' o s pc exit stk sim hpc hc h ho
   | matrixInline n rows cols cf =>
-    exact operand_matrixInline f k n rows cols cf hop.1 hop.2 σ σ' o s pc exit stk sim hpc hc h ho
+    exact operand_matrixInline f ihRvs k n rows cols cf hop.1 hop.2 σ σ' o s pc exit stk sim hpc hc h ho
   | matrixBlock n body =>
     exact operand_matrixBlock f ihB k n body hop σ σ' o s pc exit stk sim hpc hc h ho
 
